@@ -93,8 +93,11 @@ class ChannelList(gpp.UGenSequence, aob.AbstractSequence, list):
     def min_nyquist(self):
         return type(self)(bi.min(item, ifu.SampleRate.ir * 0.5) for item in self)
 
-    # degrad implemented with performUnaryOp, is not overridden here
-    # raddeg implemented with performUnaryOp, is not overridden here
+    def degrad(self):  # override (channels don't call bi.degrad)
+        return self._multichannel_perform('degrad')
+
+    def raddeg(self):  # override (channels don't call bi.raddeg)
+        return self._multichannel_perform('raddeg')
 
     def blend(self, other, frac=0.5):
         return self._multichannel_perform('blend', other, frac)
